@@ -62,6 +62,13 @@ def main(tier, replay, t0):
         if c.frontend_rejected or not c.truth["groups"]:
             continue
         x = c.cfgs[0]
+        if x.get("must_decline") and c.gen[x["id"]].get("result") == "ok":
+            viol.append(Violation("numbering-defect-accepted", str(x.get("expect_decline")),
+                                  "the shader's group/binding numbering is defective (%s) and a "
+                                  "module was generated anyway: groups cannot bind at their own "
+                                  "index / slots are merged" % x.get("expect_decline"),
+                                  {"case_id": c.id, "wgsl": c.wgsl, "options": x["opt"]}))
+            continue
         if c.gen[x["id"]].get("result") != "ok":
             v = probes.refusal_violation(c, x, "bind group type")
             if v:
